@@ -6,7 +6,7 @@ Import ListNotations.
 From CXV Require Import Gen.TokTy Parse.Balanced Parse.BalancedThms Parse.Declarator Parse.DeclSpec Parse.DeclThms Parse.DeclPins.
 From CXV Require Gen.PinsC01.
 From CXV Require Import Parse.PQName Parse.Using Parse.EnumDecl Parse.ParamsX Parse.DeclStmt Parse.TemplateStmt.
-From CXV Require Import Parse.Members Parse.MethodTail Parse.MemberStmt Parse.OpName Parse.ConvOp Parse.OperatorMember Parse.OperatorFn Parse.MethodImpl.
+From CXV Require Import Parse.Members Parse.MethodTail Parse.MemberStmt Parse.OpName Parse.ConvOp Parse.OperatorMember Parse.OperatorFn Parse.MethodImpl Parse.TemplateArg Parse.TemplateInst.
 From CXV Require Import Parse.DispatchLang Gen.Dispatch Parse.DispatchExternThms Parse.DispatchInlineThms.
 From CXV Require Import Parse.EnumList Parse.Specs Parse.VarStmt Parse.FnTail Parse.Init Parse.Members Parse.Template.
 From CXV Require Import Parse.Fold Parse.FoldThms Parse.FoldPlace.
@@ -302,6 +302,16 @@ Theorem out_of_class_method_definition_decodes_partial : forall pre post b ls n 
      (DOk (mkMI m (SName n :: map SName q) t ps va (apply_end (MeBody soup) (quals_of quals)), rest)).
 Proof. exact method_impl_roundtrip. Qed.
 
+(* Explicit instantiations (behind `template` / `extern template`): `class|struct [::] A::B::X < args > ;` reports the name
+   segments written and every template argument once, in order, as the kind it was written as (a type-id as that type,
+   anything else as its raw tokens, with its own pack flag); what follows the ';' is untouched *)
+Theorem explicit_instantiation_decodes_partial : forall (key : tk) (root : bool) q last args rest,
+  is T_class key || is T_struct key = true -> args <> [] -> Forall warg_ok args ->
+  ev (fun f => inst_stmt f (key :: (if root then [ktok T_DBL_COLON] else []) ++ qnames_toks q last ++ ktok T_LIT_60 :: targs_toks args ++
+                            ktok T_LIT_62 :: ktok SEMI :: rest))
+     (DOk (mkTI root (q ++ [last]) (map warg_out args), rest)).
+Proof. exact inst_stmt_roundtrip. Qed.
+
 (* What a `template` statement is handed on to (_parse_template): behind ONE header
    the next token selects the continuation -- `using`, `friend`, `concept`, a
    requires-clause, or (any other token) a declaration that starts with that
@@ -402,6 +412,7 @@ Print Assumptions other_inline_is_a_declaration.
 Print Assumptions typedef_goes_to_the_declaration_parser.
 Print Assumptions operator_function_decodes_partial.
 Print Assumptions out_of_class_method_definition_decodes_partial.
+Print Assumptions explicit_instantiation_decodes_partial.
 Print Assumptions template_statement_one_header_partial.
 Print Assumptions template_statement_many_headers_partial.
 Print Assumptions explicit_instantiation_consumes_nothing.
